@@ -204,8 +204,8 @@ class Replayer:
 		direct = set()
 		for line in source_of(self.graph, m, 1).splitlines():
 			if line.startswith('from vm.'):
-				from harness.fs_binding import UNSTEM
-				direct.add(UNSTEM[line.split()[1].split('.')[1]])
+				from harness.fs_binding import unstem
+				direct.add(unstem(self.graph, line.split()[1].split('.', 1)[1]))
 		kinds = set()
 		for d in stale:
 			kinds.add('own-source' if d == m else ('direct-import' if d in direct else 'transitive-import'))
